@@ -291,6 +291,17 @@ func registerEnv(m *Machine) {
 		ta.peer, tb.peer = tb, ta
 		return Tuple{ca, cb}
 	}
+	// vfTimerRace(on): while on, a pending timer among the cases of a select may fire although other
+	// cases are ready (time may pass at any moment); off: timers fire only when nothing else can run.
+	I["vfTimerRace"] = func(m *Machine, fr *frame, a []Value, _ *ssa.CallCommon) Value {
+		m.timerRace = a[0].(*Term).IsTrue()
+		return nil
+	}
+	// vfTCPKeepOpen(conn): after the stream the peer stays silent instead of closing (reads block).
+	I["vfTCPKeepOpen"] = func(m *Machine, fr *frame, a []Value, _ *ssa.CallCommon) Value {
+		m.tcp[a[0].(*Value)].eof = false
+		return nil
+	}
 	I["vfTCPByteWise"] = func(m *Machine, fr *frame, a []Value, _ *ssa.CallCommon) Value {
 		m.tcp[a[0].(*Value)].byteWise = true
 		return nil
